@@ -2,11 +2,15 @@
 \* Trace specification for C13: the bag of solutions (resp. the ASK answer) returned through SparqlWrapper must be the one
 \* the SPARQL 1.1 algebra of Sparql.tla defines; unsupported operators must answer NotImplemented; nothing panics.
 EXTENDS Sparql, Json, IOUtils
+\* the other readings of the two extension points
+Alt1 == INSTANCE Sparql WITH LangCmpExt <- ~LangCmpExt, SameLitExt <- SameLitExt
+Alt2 == INSTANCE Sparql WITH LangCmpExt <- LangCmpExt, SameLitExt <- ~SameLitExt
+Alt3 == INSTANCE Sparql WITH LangCmpExt <- ~LangCmpExt, SameLitExt <- ~SameLitExt
 Rec == ndJsonDeserialize(IOEnv.TRACE)
 VARIABLE l
 SetOfSeq(s) == {s[i] : i \in 1..Len(s)}
 Rows(sols, vars) == [i \in 1..Len(sols) |-> RowOf(sols[i], vars)]
-Judge(e) ==
+JudgeWith(e, Ans(_, _)) ==
   IF e.ev = "Unsupported" THEN (IF e.res.k = "notimplemented" THEN "ok" ELSE "unsupported-operator-answered")
   ELSE IF e.ev # "Query" THEN "panic"
   ELSE LET D == SetOfSeq(e.d)
@@ -14,7 +18,7 @@ Judge(e) ==
            top == IF P.op = "slice" THEN P.inner ELSE P
        IN IF Overrides(P) THEN (IF e.res.k = "override" THEN "ok" ELSE "rebinding-a-variable-in-scope-not-refused")
           ELSE IF e.res.k \notin {"rows", "bool"} THEN "error-on-supported-query"
-          ELSE LET sols == Answer(top, D) IN
+          ELSE LET sols == Ans(top, D) IN
                IF e.ask THEN
                   (IF e.res.k # "bool" THEN "wrong-result-kind"
                    ELSE LET n == IF P.op = "slice" THEN SliceSize(Len(sols), P.start, P.len) ELSE Len(sols) IN
@@ -29,6 +33,7 @@ Judge(e) ==
                     ELSE IF got = exp THEN "ok"
                     ELSE IF SetOfSeq(e.res.rows) = SetOfSeq(Rows(sols, e.res.vars)) THEN "multiplicities-differ"
                     ELSE IF \E r \in SetOfSeq(e.res.rows) : r \notin DOMAIN exp THEN "spurious-solution" ELSE "missing-solution"
+Judge(e) == LET v == JudgeWith(e, Answer) IN IF v = "ok" THEN v ELSE IF JudgeWith(e, Alt1!Answer) = "ok" \/ JudgeWith(e, Alt2!Answer) = "ok" \/ JudgeWith(e, Alt3!Answer) = "ok" THEN "ok" ELSE v
 Init == l = 1
 Next == /\ l <= Len(Rec) /\ l' = l + 1
         /\ LET v == Judge(Rec[l]) IN IF v = "ok" THEN TRUE ELSE PrintT(<<"MISMATCH", l, v>>)
